@@ -141,6 +141,12 @@ NONCANON = [
     ('Struct("n"/Rebuild(VarInt, len_(this._d)), "_d"/Bytes(this.n), "z"/Byte)', [b'\x82\x00ab\x07', b'\x00\x07']),
     ('Struct("h"/Struct("l"/Rebuild(Byte, len_(this._._body))), "_body"/Bytes(this.h.l))', [b'\x03abc']),
     ('Struct("k"/Default(Byte, this._v + 1), "_v"/Byte)', [b'\x05\x04', b'\x00\x09']),
+    # fields that only build evaluates (Rebuild): constants on the LEFT of -, //, %, **, <<, >> and of comparisons over the parsed members
+    ('Struct("free"/Rebuild(Byte, 8 - len_(this.its)), "its"/PrefixedArray(VarInt, Byte))', [b'\x06\x02\x01\x02', b'\x08\x00', b'\x05\x03\x01\x02\x03']),
+    ('Struct("a"/Byte, "r"/Rebuild(Byte, 200 - this.a), "s"/Rebuild(Byte, 100 // (this.a + 1)), "t"/Rebuild(Byte, 17 % (this.a + 2)), "u"/Rebuild(Byte, 2 ** (this.a % 4)))',
+     [b'\x03\xc5\x19\x02\x08', b'\x00\xc8\x64\x01\x01']),
+    ('Struct("a"/Byte, "r"/Rebuild(Int16ub, 1 << (this.a % 8)), "s"/Rebuild(Byte, 255 >> (this.a % 8)), "f"/Rebuild(Flag, 5 < this.a), "g"/Rebuild(Flag, 5 >= this.a))',
+     [b'\x03\x00\x08\x1f\x00\x01', b'\x09\x00\x02\x7f\x01\x00']),
     # tag-length-value (StableDep): payload chosen by the tag and sized by the length; non-minimal VarInts, non-zero padding
     ('Struct("t"/Byte, "n"/Byte, "v"/Switch(this.t, {1: Bytes(this.n), 2: Array(this.n, Int16ub)}, default=Pass), "f"/IfThenElse(this.t, VarInt, Pass))',
      [b'\x02\x02\x01\x02\x00\x03\xac\x82\x00', b'\x01\x03abc\x80\x00', b'\x00\x09', b'\x07\x00\x81\x80\x00', b'\x01\x05ab']),
